@@ -390,7 +390,58 @@ def enumerate_cases(tier):
                 for kind in ("in_unit", "add", "m_add"):
                     for tail in (False, True):
                         out.append({"restate": R, "types": [first, second], "mag": mag, "kind": kind, "unrelated_after": tail})
+    # two unrelated pairs of units whose ratios are equal numbers written in different numeric types
+    # (an "echo"): conversions over powers of the first pair, then the final query over the second
+    for R in ("4", "2.5", "0.25", "10"):
+        for first, second in (("float", "dec"), ("dec", "float"), ("int", "dec"), ("dec", "int"), ("int", "float")):
+            if "int" in (first, second) and "." in R:
+                continue
+            for mag in ({"t": "float", "v": 1.5}, {"t": "int", "v": 3}, {"t": "dec", "v": "0.7"}):
+                for e in (1, 2, 3, -2):
+                    out.append({"echo": R, "types": [first, second], "mag": mag, "e": e})
     return out
+
+
+def _run_echo(case, out):
+    from decimal import Decimal
+
+    from ..world import World
+
+    def num(t, text):
+        return {"float": float, "dec": Decimal, "int": lambda x: int(float(x))}[t](text)
+
+    e = int(case["e"])
+
+    def history(queries_first):
+        w = World([])
+        m = w.m
+        a, b, c, d = (m.Unit.define(m.Length, n, n) for n in ("ea", "eb", "ec", "ed"))
+        a.equals(num(case["types"][0], case["echo"]) * b)
+        c.equals(num(case["types"][1], case["echo"]) * d)
+        mag = convgen.mag_value(case["mag"])
+        if queries_first:
+            for k in (1, 2, 3, -2, e):
+                (mag * a**k).in_unit(b**k)
+                (mag * b**k).in_unit(a**k)
+        res = []
+        for src, dst in ((c**e, d**e), (d**e, c**e)):
+            try:
+                r = (mag * src).in_unit(dst)
+                res.append((type(r.magnitude).__name__, repr(r.magnitude)))
+            except Exception as ex:  # noqa
+                res.append(("exc", type(ex).__name__))
+        return res
+
+    try:
+        ra, rb = history(True), history(False)
+    finally:
+        from ..world import shared_world
+        shared_world()
+    out.classes.append("echo-declarations")
+    if ra != rb:
+        out.fail("C08:history-dependence:echo", f"two pairs with the ratio {case['echo']} written as {case['types'][0]} and as {case['types'][1]}: after conversions over the first pair the second pair's query (power {e}) gives {ra}, alone it gives {rb} (magnitude {case['mag']})")
+    out.nontrivial = core.case_hash(case)
+    out.sample = {"echo": case["echo"], "types": case["types"], "outcome": rb}
 
 
 def _run_restated(case, out):
@@ -444,9 +495,9 @@ def _run_restated(case, out):
 
 def run_case(case) -> core.Outcome:
     out = core.Outcome()
-    if isinstance(case, dict) and "restate" in case:
+    if isinstance(case, dict) and ("restate" in case or "echo" in case):
         try:
-            _run_restated(case, out)
+            (_run_restated if "restate" in case else _run_echo)(case, out)
         except (KeyError, ValueError, TypeError, IndexError):
             out.invalid = True
         return out
